@@ -1,9 +1,16 @@
 (* C03  The compile pipeline is total: no input panics or hangs it.
    Only statements, [exact] and [Print Assumptions] live here. *)
 From Coq Require Import List Arith Bool NArith.
-From GV Require Import Base.Result Gen.TokenTypes Gen.Defs Model.Parser Model.BuilderWL
-  Proofs.C03.ParseTotal Proofs.C03.Bounded Proofs.C03.Bounded4.
+From GV Require Import Base.Result Gen.TokenTypes Gen.Defs Model.Lexer Model.Parser Model.BuilderWL
+  Proofs.C13.LexRun Proofs.C03.ParseTotal Proofs.C03.Bounded Proofs.C03.Bounded4.
 Import ListNotations.
+
+(* lex, for EVERY input string (code points) and every Unicode classification [un] / [ua] of
+   non-ASCII characters: never panics (the one unchecked subtraction is unreachable) and always
+   returns (each call of next() consumes input or is one of two end-of-input flushes) *)
+Theorem C03_lex_total : forall un ua (s : list N), no_panic (lex un ua s) /\ terminates (lex un ua s).
+Proof. intros un ua s. split; [apply lex_no_panic|apply lex_terminates]. Qed.
+Print Assumptions C03_lex_total.
 
 (* parse, for EVERY token list: never panics, never exhausts the fuel that only
    makes its two bounded walks structural (the count guards end them first) *)
@@ -24,8 +31,8 @@ Theorem C03_pipeline_total_bounded_4_rep : forall toks : list token_type,
 Proof. intros toks Hl Hin. exact (proj1 (pipeline_bounded_4_rep toks Hl Hin)). Qed.
 Print Assumptions C03_pipeline_total_bounded_4_rep.
 
-(* The full statement (lexing is C13's lex_total; the builder half for arbitrary
-   proper trees is not proved yet): *)
+(* The full statement for parse and build (lexing is C03_lex_total above; the builder half for
+   arbitrary accepted trees is not proved beyond the bounds): *)
 Definition C03_full_statement : Prop :=
   forall toks : list token_type,
     total (parse toks) /\
